@@ -41,6 +41,8 @@ CHECKS["C03"] = ("Proof: C03.created_tape_is_k7 — whenever create writes, the 
                  "constants. Tie + oracle: real archives vs model, vs Spec.K7.tape, and through an independent strict Python decoder.", T, "7 C03")
 CHECKS["C08"] = ("Proof: C08.read_blocks(_padded) — on every tape emitted by the independent writer (leaders >= 3, idle gaps without 3C, "
                  "payloads 0..254 of any content, any length) the model reader returns exactly the written blocks; "
+                 "third_party_tape_read_exactly — such a tape carrying, per file, a leader, any number of data blocks of any sizes and an end block "
+                 "is extracted as exactly those files (names, order, content = concatenation of the data blocks) and listed under the same names; "
                  "list_extract_agree — whenever extract completes, list completes with the same report. Tie: tapes from a Python twin of "
                  "the writer (checked byte-identical to Lean's render) through real list/extract vs model and abstract files.", T, "7 C08")
 CHECKS["C09"] = ("Proof: C09.accepted / refused / accepted_iff / missing_source / never_partial — the model accepts exactly the lists whose "
